@@ -49,13 +49,19 @@ def build(spec):
                      transition=[T(origin="S", destination="E", equation="beta*S*I/N", transition_type=TT.T),
                                  T(origin="E", destination="I", equation="alpha*E", transition_type=TT.T),
                                  T(origin="I", destination="R", equation="gamma*I", transition_type=TT.T)])
+    elif k == "burst":
+        # an exponential in a rate (evaluators that need numpy's exp) and a jump size that is a parameter
+        m = pg.model(state=["S", "I", "R"], param=["beta", "gamma", "N"],
+                     event=[pg.Event(rate="beta*S*I/N*exp(-I/N)", transition_list=[T(origin="S", destination="I", transition_type=TT.T)]),
+                            pg.Event(rate="gamma*I", transition_list=[T(origin="I", destination="R", transition_type=TT.T)]),
+                            pg.Event(rate="1.5", transition_list=[T(destination="S", transition_type=TT.B, magnitude="1 + gamma")])])
     else:
         raise ValueError(k)
     return m
 
 
 def param_names(spec):
-    return {"sir": ["beta", "gamma", "N"], "sirbd": ["beta", "gamma", "mu", "N"],
+    return {"sir": ["beta", "gamma", "N"], "sirbd": ["beta", "gamma", "mu", "N"], "burst": ["beta", "gamma", "N"],
             "seir": ["beta", "alpha", "gamma", "N"]}.get(spec["name"]) or ["k%d" % i for i in range(spec["k"] - 1)]
 
 
@@ -488,6 +494,13 @@ CORPUS = [
          n=3, seeds=[3, 4], split=1,
          params={"k0": dict(form="tuple", fn="runif", args=[0.4, 0.6], kw=False),
                  "k1": dict(form="frozen", dist="uniform", args=[0.2, 0.2])}),
+    # a model whose rates need exp() and whose jump size is a (random) parameter: first call on a fresh model included
+    dict(kind="stoch", model=dict(name="burst"), x0=[95, 5, 0], t=4.0, tform="scalar", n=2, seeds=[31, 32], split=1, exact=True,
+         params={"beta": 1.6, "gamma": dict(form="frozen", dist="uniform", args=[0.3, 0.4]), "N": 100.0}),
+    dict(kind="stoch", model=dict(name="burst"), x0=[95, 5, 0], t=[1.0, 2.0, 4.0], tform="vector", n=2, seeds=[33, 34], split=1, exact=False,
+         params={"beta": 1.6, "gamma": dict(form="tuple", fn="runif", args=[0.3, 0.7], kw=False), "N": 100.0}),
+    dict(kind="param", fn="solve_determ", model=dict(name="burst"), x0=[95, 5, 0], t=[1.0, 2.0], tform="vector", n=3, seeds=[35, 36], split=1,
+         params={"beta": dict(form="frozen", dist="gamma", args=[100.0, 1.6 / 100.0]), "gamma": 0.4, "N": 100.0}),
     # many runs: the reported mean must be the mean of all of them, whatever the count (blocked / streaming means)
     dict(kind="param", fn="simulate_param", model=dict(name="chain", k=3), x0=[50, 0, 0], t=[1.0, 2.0], tform="vector",
          n=130, seeds=[21, 22], split=100,
